@@ -357,6 +357,7 @@ VARIANTS["C05"] = [
     M("add_node_to_edge-directions-exchanged-consistently", "xgi/core/dihypergraph.py", "        if direction == \"in\":\n            ed = \"in\"\n            nd = \"out\"\n        elif direction == \"out\":\n            ed = \"out\"\n            nd = \"in\"\n        else:\n            raise XGIError(\"Invalid direction!\")\n\n        if edge not in self._edge:\n            self._edge[edge]", "        if direction == \"in\":\n            ed = \"out\"\n            nd = \"in\"\n        elif direction == \"out\":\n            ed = \"in\"\n            nd = \"out\"\n        else:\n            raise XGIError(\"Invalid direction!\")\n\n        if edge not in self._edge:\n            self._edge[edge]", "E-DIR", "add_node_to_edge"),
     M("clear-keeps-net-attrs-always", HG, "        if remove_net_attr:\n            self._net_attr.clear()\n\n    def clear_edges", "        if remove_net_attr:\n            pass\n\n    def clear_edges", "E-FOOT", "clear"),
     M("update-nodes-branch-negated", HG, "        if nodes:\n            self.add_nodes_from(nodes)", "        if not nodes:\n            self.add_nodes_from(nodes)", "E-ALIAS", "update"),
+    M("remove_edges_from-pops-the-edge", HG, "        for idx in ebunch:\n            for node in self._edge[idx].copy():\n                self._node[node].remove(idx)\n            del self._edge[idx]\n            del self._edge_attr[idx]", "        for idx in ebunch:\n            for node in self._edge.pop(idx):\n                self._node[node].remove(idx)\n            del self._edge_attr[idx]", "E-TYPE", "remove_edges_from"),
 ]
 
 # --------------------------------------------------------------------------- C09
